@@ -19,6 +19,11 @@ OriginOf == [allowed  |-> A,
              other    |-> "https://evil.example.net",
              suffix   |-> "https://a.example.com.evil.net",
              prefix   |-> "https://a.example.co",
+             \* RFC 6454: an origin is the triple (scheme, host, port) - same host as A, other port / scheme
+             \* (":80" is not the default port of https, so this is not a second spelling of A)
+             port80   |-> "https://a.example.com:80",
+             port8443 |-> "https://a.example.com:8443",
+             scheme   |-> "http://a.example.com",
              null     |-> "null",
              garbage  |-> "garbage",
              absent   |-> ""]
